@@ -38,6 +38,7 @@ def proof_stage(rep, pid, extra_trusted=()):
         for b in bad:
             rep.add_broken('hygiene', b, 'forbidden construct in the Coq development')
         res = check_props(pid)
+        pin_problems = check_pins(pid)
     thms = res['theorems']
     rep.cov['obligations'] = len(thms)
     rep.cov['checker_cmd'] = 'cd /verif/coq && make -j16 Props/%s.vo && coqc -Q . TV Props/%s.v  (Print Assumptions vs allow-list; grep hygiene gate)' % (pid, pid)
@@ -60,6 +61,16 @@ def proof_stage(rep, pid, extra_trusted=()):
             rep.add_broken('axioms', name, 'not in allow-list: %s' % axs)
         rep.cov['discharged'] = okn if not bad else 0
         rep.cov['axioms_reported'] = {k: v for k, v in res['assumptions'].items() if v}
+    # every statement is pinned (name, statement hash, hash of the definitions it is written with): a theorem that silently
+    # disappeared or was weakened -- directly or through a predicate it uses -- is a broken obligation
+    for name, why in pin_problems:
+        rep.add_broken('pin', name, why + ' (coq/Props/EXPECTED.json; after a deliberate change re-pin with ./check --write-pins)')
+    rep.cov['pinned_statements_ok'] = not pin_problems
+    if pin_problems:
+        gone = len([n for n, w in pin_problems if 'pinned theorem is no longer' in w])
+        moved = len(set(n for n, _ in pin_problems if n in thms))
+        rep.cov['obligations'] = len(thms) + gone          # a pinned theorem that disappeared is still an obligation
+        rep.cov['discharged'] = max(0, rep.cov['discharged'] - moved)
     rep.cov['trusted_base'] = TRUSTED_COMMON + list(extra_trusted)
     if rep.tier == 'thorough' and res['compiled']:
         # independent re-check of the compiled proofs and everything they depend on (coqchk), axioms it reports vs the allow-list
